@@ -190,17 +190,10 @@ class Flow:
                 out.append((n, [d], True, ext.split(".")[-1] + "(dir=...)"))
                 continue
             if ext in OS_READ or ext in OS_WRITE:
-                paths = [a for a in n.args if not isinstance(a, ast.Constant) or isinstance(a.value, str)]
-                if ext in ("open", "io.open", "os.open"):
-                    paths = paths[:1]
-                    mut = _open_mode_writes(n, 1)
-                else:
-                    mut = ext in OS_WRITE
-                if ext in ("os.rename", "os.replace", "os.symlink", "os.link") or ext.startswith("shutil."):
-                    paths = list(n.args[:2])
-                else:
-                    paths = paths[:1]
-                out.append((n, paths or [None], mut, ext))
+                two = ext in ("os.rename", "os.replace", "os.symlink", "os.link") or ext.startswith("shutil.")
+                paths = list(n.args[:2] if two else n.args[:1]) or [None]
+                mut = ext in OS_WRITE or ext == "os.open" or (ext in ("open", "io.open") and _open_mode_writes(n, 1))
+                out.append((n, paths, mut, ext + "()"))
                 continue
             if isinstance(f, ast.Attribute):
                 name = f.attr
@@ -247,6 +240,11 @@ class Flow:
                 return "path" if self.kind(scope, e.args[0], depth + 1) == "path" else None
             if isinstance(e.func, ast.Attribute) and e.func.attr in SAME_PATH_METHODS:
                 return "path" if self.kind(scope, e.func.value, depth + 1) == "path" else None
+            if isinstance(e.func, ast.Attribute) and e.func.attr in ("with_suffix", "with_name", "with_stem") and len(e.args) == 1 and not e.keywords:
+                # a sibling with a constant, separator-free name stays in the sanitised directory
+                c = _const_str_(e.args[0])
+                if c is not None and "/" not in c and c not in (".", "..") and "\0" not in c:
+                    return "path" if self.kind(scope, e.func.value, depth + 1) == "path" else None
             return None
         if isinstance(e, ast.BinOp) and isinstance(e.op, ast.Div):
             # a constant, harmless child name below a sanitised directory
@@ -389,6 +387,10 @@ class Flow:
         res = kinds.pop() if len(kinds) == 1 and sites else None
         self._param[key] = res
         return res
+
+
+def _const_str_(e):
+    return e.value if isinstance(e, ast.Constant) and isinstance(e.value, str) else None
 
 
 def _open_mode_writes(call, pos):
@@ -631,6 +633,7 @@ class Sanitiser:
               x in (consts), x == c, x != c, truthiness of x, x.startswith("."), and/or/not of these)
           c in P / c in P[:-1] is False for c in "", ".", ".."          all(P[:-1]) is True
           P[0] == "" is False / P[0] is truthy                           P is empty (everything holds vacuously)
+          len(P) <op> k leaving at most one component (no interior '/' possible, so no absolute join given (i))
           J.startswith("/") is False, os.path.isabs(J) is False, PurePath(J).is_absolute() is False
           R.is_relative_to(root) is True, commonpath([root, R]) == root is True, root in R.parents is True
               (with .resolve() on both sides these also establish slash/dot/dotdot: true containment)
@@ -675,6 +678,9 @@ class Sanitiser:
             return set()
         if isinstance(e, ast.Compare) and len(e.ops) == 1:
             op, l, r = e.ops[0], e.left, e.comparators[0]
+            lf = self._len_facts(sh, op, l, r, pol)
+            if lf:
+                return lf
             if isinstance(op, (ast.In, ast.NotIn)):
                 excluded = (isinstance(op, ast.In) and not pol) or (isinstance(op, ast.NotIn) and pol)
                 c = _const_str(l)
@@ -696,10 +702,6 @@ class Sanitiser:
                 for x, y in ((l, r), (r, l)):
                     if _const_str(y) == "" and isinstance(x, ast.Subscript) and _int_const(x.slice) == 0 and self.is_P(sh, x.value):
                         return {"abs"} if not holds_eq else set()
-                # len(P) == 0  /  P == ()
-                for x, y in ((l, r), (r, l)):
-                    if isinstance(x, ast.Call) and chain(x.func) == "len" and len(x.args) == 1 and self.is_P(sh, x.args[0]) and _int_const(y) == 0:
-                        return {"slash", "dot", "dotdot", "abs"} if holds_eq else set()
                 # commonpath([root, R]) == root
                 for x, y in ((l, r), (r, l)):
                     if isinstance(x, ast.Call) and chain(x.func) in ("os.path.commonpath", "posixpath.commonpath") and len(x.args) == 1 and holds_eq:
@@ -717,6 +719,28 @@ class Sanitiser:
             return {"slash", "dot", "dotdot", "abs"} if not pol else set()
         if isinstance(e, ast.Subscript) and _int_const(e.slice) == 0 and self.is_P(sh, e.value):
             return {"abs"} if pol else set()
+        return set()
+
+    def _len_facts(self, sh, op, l, r, pol):
+        """len(P) <op> k: no component at all establishes everything; at most one
+        component cannot produce an interior '/' (so, given (i), no absolute join)."""
+        import operator
+        ops = {ast.Lt: operator.lt, ast.LtE: operator.le, ast.Gt: operator.gt, ast.GtE: operator.ge, ast.Eq: operator.eq, ast.NotEq: operator.ne}
+        if type(op) not in ops:
+            return set()
+        def is_len(x):
+            return isinstance(x, ast.Call) and chain(x.func) == "len" and len(x.args) == 1 and not x.keywords and self.is_P(sh, x.args[0])
+        if is_len(l) and _int_const(r) is not None:
+            f = lambda n: ops[type(op)](n, _int_const(r))
+        elif is_len(r) and _int_const(l) is not None:
+            f = lambda n: ops[type(op)](_int_const(l), n)
+        else:
+            return set()
+        allowed = [n for n in range(0, 64) if f(n) == pol]
+        if allowed and max(allowed) == 0:
+            return {"slash", "dot", "dotdot", "abs"}
+        if allowed and max(allowed) <= 1:
+            return {"abs"}
         return set()
 
     def establishers(self, sh, ret_id):
@@ -902,7 +926,7 @@ def c(ctx):
                 ctx.ob("without write permission the method answers 4.03 Forbidden", ok, fi, nd.ast,
                        construct="%s: not self.write" % fi.name,
                        detail="exits on the read-only side: %s" % "; ".join(stmt_text(x.ast, 60) for x in exits))
-    ctx.floor("self.write tests in mutating methods", tests, 2)
+    ctx.floor("self.write tests in mutating methods", tests, 1)
 
     # self.write is configuration: assigned in __init__ only
     writers = []
@@ -1071,15 +1095,18 @@ def d(ctx):
 # C19.e
 
 
-def _handler_catches(prog, fi, h, exc="FileNotFoundError"):
+def _handler_catches(prog, h, exc="FileNotFoundError"):
     if h.type is None:
         return True
     types = h.type.elts if isinstance(h.type, ast.Tuple) else [h.type]
     for t in types:
         txt = chain(t)
-        if txt and prog.is_subclass(exc, txt.split(".")[-1] if txt.split(".")[-1] in ("FileNotFoundError", "OSError", "IOError", "Exception", "BaseException", "EnvironmentError") else txt):
-            return True
-        if txt in ("EnvironmentError", "IOError"):
+        if not txt:
+            continue
+        last = txt.split(".")[-1]
+        if last in ("IOError", "EnvironmentError"):
+            last = "OSError"
+        if prog.is_subclass(exc, last):
             return True
     return False
 
@@ -1114,13 +1141,19 @@ def e(ctx):
 
     # (2) first stat/unlink of a request maps FileNotFoundError to 4.04 (4.12 for a failed precondition)
     fl = Flow(prog)
-    n = 0
+    n = total = 0
     for fi in fl.funcs:
         if fi.cls is None or not fi.name.startswith("render_"):
             continue
         cfg = cfg_of(fi)
         scope = _scopes(fi)[0]
         sinks = [(call, label) for call, paths, mut, label in fl.sinks(scope)]
+        # calls of helpers of the class that contain sinks themselves count as sinks here (one level)
+        for nd in _scope_nodes(scope):
+            if isinstance(nd, ast.Call) and (chain(nd.func) or "").startswith("self.") and chain(nd.func).count(".") == 1:
+                m = fl.ci.methods.get(nd.func.attr)
+                if m is not None and not _is_sanitiser(m) and fl.sinks(_scopes(m)[0]):
+                    sinks.append((nd, "helper"))
         sink_nodes = {id(call): set(cfg.locate(call)) for call, _ in sinks}
         # a helper whose every call site is preceded by a successful sink needs no mapping of its own
         sites = fl.call_sites(fi.name)
@@ -1133,6 +1166,7 @@ def e(ctx):
             if label not in (".stat()", ".unlink()"):
                 continue
             nids = cfg.locate(call)
+            total += len(nids)
             for nid in nids:
                 dominated = covered_by_caller or any(
                     o is not call and any(cfg.dominates(x, nid) and x != nid and not _exc_only(cfg, x, nid) for x in sink_nodes[id(o)])
@@ -1141,7 +1175,7 @@ def e(ctx):
                     continue
                 n += 1
                 hs = [cfg.nodes[d] for d, lab in cfg.succ[nid] if lab == "exc" and d != cfg.rexit]
-                hs = [h for h in hs if h.kind == "handler" and _handler_catches(prog, fi, h.ast)]
+                hs = [h for h in hs if h.kind == "handler" and _handler_catches(prog, h.ast)]
                 ok = bool(hs)
                 detail = "no enclosing handler for FileNotFoundError"
                 if ok:
@@ -1149,11 +1183,11 @@ def e(ctx):
                     reach = cfg.reach({h.id}, skip_labels=("exc",))
                     exits = [cfg.nodes[x] for x in reach if cfg.nodes[x].kind in ("return", "raise")]
                     falls = cfg.exit in cfg.reach({h.id}, avoid={x.id for x in exits}, skip_labels=("exc",))
-                    hexits = [x for x in exits if cfg.dominates(h.id, x.id)]
-                    ok = bool(hexits) and not falls and len(hexits) == len(exits) and all(_responds_with(prog, fi, x.ast, {"NOT_FOUND", "PRECONDITION_FAILED"}) for x in hexits)
+                    ok = bool(exits) and not falls and all(_responds_with(prog, fi, x.ast, {"NOT_FOUND", "PRECONDITION_FAILED"}) for x in exits)
                     detail = "handler exits: %s" % "; ".join(stmt_text(x.ast, 60) for x in exits)
                 ctx.ob("a missing file at the first %s of the request is answered with 4.04 (4.12 under If-Match)" % label, ok, fi, call, detail=detail)
-    ctx.floor("undominated stat/unlink probes in render_* methods", n, 4)
+    ctx.floor("stat/unlink sinks in render_* methods", total, 5)
+    ctx.floor("stat/unlink probes not preceded by another sink in render_* methods", n, 1)
 
 
 FOUR_XX = {"BAD_REQUEST", "UNAUTHORIZED", "BAD_OPTION", "FORBIDDEN", "NOT_FOUND", "METHOD_NOT_ALLOWED", "NOT_ACCEPTABLE",
@@ -1162,8 +1196,9 @@ FOUR_XX = {"BAD_REQUEST", "UNAUTHORIZED", "BAD_OPTION", "FORBIDDEN", "NOT_FOUND"
 
 
 def _exc_only(cfg, a, b):
-    """b is reachable from a only through exceptional edges (b sits in a handler of a's failure)."""
-    return b not in cfg.reach({a}, skip_labels=("exc",))
+    """b is reachable from a only through a's own failure (b sits in a handler of a's exception)."""
+    starts = {d for d, lab in cfg.succ[a] if lab != "exc"}
+    return b not in cfg.reach(starts, include_src=True)
 
 
 # ---------------------------------------------------------------------------
